@@ -418,8 +418,8 @@ fn pick_roots(inp: &Input, inm: &AbsModule) -> Vec<(String, u32)> {
     out
 }
 
-/// Diagnosis aid for one known finding: functions named by a live `ref.func` whose only declaration
-/// (export, global initialiser, element segment) is a passive element segment.
+/// Diagnosis aid for one known finding: functions named by a live `ref.func` all of whose declarations are ones the
+/// GC pass may collect (passive element segments, active segments of local tables, initialisers of local globals).
 pub fn declared_only_by_passive(m: &AbsModule) -> Vec<u32> {
     let mut reffed: Vec<u32> = vec![];
     for f in &m.funcs {
@@ -438,11 +438,12 @@ pub fn declared_only_by_passive(m: &AbsModule) -> Vec<u32> {
     reffed
         .into_iter()
         .filter(|f| {
+            // declarations that the GC pass always keeps: exports, declared segments, active segments of imported tables
             let exported = m.exports.iter().any(|e| e.kind == "func" && e.target == *f);
-            let in_global = m.globals.iter().any(|g| g.init.k == "func" && g.init.r == *f as i32);
-            let in_kept = m.elems.iter().any(|e| e.mode != "passive" && in_items(e, *f));
-            let in_passive = m.elems.iter().any(|e| e.mode == "passive" && in_items(e, *f));
-            !exported && !in_global && !in_kept && in_passive
+            let rooted = m.elems.iter().any(|e| in_items(e, *f) && (e.mode == "declared" || (e.mode == "active" && e.table >= 0 && m.tables.get(e.table as usize).map(|t| t.imported).unwrap_or(false))));
+            // declarations that the pass may collect: passive segments, active segments of local tables, global initialisers
+            let collectable = m.elems.iter().any(|e| in_items(e, *f)) || m.globals.iter().any(|g| g.init.k == "func" && g.init.r == *f as i32);
+            !exported && !rooted && collectable
         })
         .collect()
 }
@@ -1155,4 +1156,150 @@ pub fn par_case(inp: &Input) -> Value {
     let (pj, ej, threads): (Vec<i64>, Vec<i64>, usize) = (vec![], vec![], 0);
     json!({"id": inp.id, "source": inp.source, "outcome": rt.outcome, "digest": if rt.outcome == "ok" { absmod::fnv(&rt.out) } else { String::new() },
            "parse_jobs": pj, "emit_jobs": ej, "threads_seen": threads})
+}
+
+// ---- code transform (C11) -----------------------------------------------------------------------
+
+pub const INSERT_MARK: i32 = 0x5eed;
+
+/// insert `i32.const 0x5eed ; drop` (default locations) into the entry block of some functions
+pub fn insert_marked_instructions(m: &mut walrus::Module, seed: u64) -> usize {
+    use rand::Rng;
+    use walrus::ir::{Const, Drop, Value as V};
+    let mut r = gen::rng(seed ^ 0x11);
+    let fids: Vec<walrus::FunctionId> = m.funcs.iter_local().map(|(id, _)| id).collect();
+    let mut n = 0;
+    for fid in fids {
+        if r.gen_bool(0.4) {
+            continue;
+        }
+        let lf = m.funcs.get_mut(fid).kind.unwrap_local_mut();
+        let entry = lf.entry_block();
+        let len = lf.block(entry).instrs.len();
+        let times = r.gen_range(1..3);
+        for _ in 0..times {
+            let pos = r.gen_range(0..=len);
+            lf.builder_mut().instr_seq(entry).instr_at(pos, Const { value: V::I32(INSERT_MARK) }).instr_at(pos + 1, Drop {});
+            n += 1;
+        }
+    }
+    n
+}
+
+pub fn xform_case(inp: &Input, variant: &str) -> Value {
+    let cfg = Cfg { xform: true, probe: true, ..Default::default() };
+    let id = format!("{}~{}", inp.id, variant);
+    let parsed = match run::parse(&inp.bytes, &cfg) {
+        Ok(p) => p,
+        Err(e) => return json!({"id": id, "source": inp.source, "outcome": format!("parse-{}", e)}),
+    };
+    let mut module = parsed.module;
+    let maps = parsed.maps;
+    let mut inserted = 0;
+    match variant {
+        "gc" => {
+            if let Err(e) = run::gc(&mut module) {
+                return json!({"id": id, "source": inp.source, "outcome": format!("gc-{}", e)});
+            }
+        }
+        "edited" => inserted = insert_marked_instructions(&mut module, absmod::fnv(inp.id.as_bytes()).len() as u64 + inp.bytes.len() as u64),
+        _ => {}
+    }
+    let em = match run::emit(&mut module, true) {
+        Ok(e) => e,
+        Err(e) => return json!({"id": id, "source": inp.source, "outcome": format!("emit-{}", e)}),
+    };
+    let sigma = run::sigma(&maps, &em.emit);
+    let inm = absmod::project(&inp.bytes).unwrap_or_default();
+    let outm = absmod::project(&em.bytes).unwrap_or_default();
+    let mut attributed = 0usize;
+    let mut funcs = vec![];
+    for f in inm.funcs.iter().filter(|f| !f.imported) {
+        let fo = sigma.func.get(f.idx as usize).copied().unwrap_or(-1);
+        if fo < 0 {
+            continue;
+        }
+        let Some(of) = outm.funcs.get(fo as usize) else { continue };
+        // walrus adds an `else` to an if that had none: every output Else beyond the input's count is "inserted";
+        // so are the marked const/drop pairs of the edit
+        // which output `else` operators were added by walrus: pair up the surviving `if`s of the input with the `if`s of
+        // the output, in order, and look at whether the input one had an else arm
+        let if_info = |ops: &[absmod::AbsOp], keep: &[bool]| -> Vec<(bool, Option<usize>)> {
+            let mut res: Vec<(bool, Option<usize>)> = vec![];
+            let mut st: Vec<Option<usize>> = vec![]; // index into res for if-frames
+            for (k, o) in ops.iter().enumerate() {
+                match o.o.as_str() {
+                    "If" => {
+                        if keep[k] {
+                            res.push((false, None));
+                            st.push(Some(res.len() - 1));
+                        } else {
+                            st.push(None);
+                        }
+                    }
+                    "Block" | "Loop" => st.push(None),
+                    "Else" => {
+                        if let Some(Some(i)) = st.last() {
+                            res[*i] = (true, Some(k));
+                        }
+                    }
+                    "End" => {
+                        st.pop();
+                    }
+                    _ => {}
+                }
+            }
+            res
+        };
+        let live = absmod::liveness(&f.ops);
+        let in_ifs = if_info(&f.ops, &live);
+        let out_ifs = if_info(&of.ops, &vec![true; of.ops.len()]);
+        let mut added_else: Vec<usize> = vec![];
+        if in_ifs.len() == out_ifs.len() {
+            for (a, b) in in_ifs.iter().zip(out_ifs.iter()) {
+                if !a.0 {
+                    if let Some(k) = b.1 {
+                        added_else.push(k);
+                    }
+                }
+            }
+        }
+        let mut outops = vec![];
+        let mut open_marks = 0usize; // inserted pairs nest like parentheses (a later insertion may land inside an earlier pair)
+        let in_else = f.ops.iter().filter(|o| o.o == "Else").count();
+        let out_else = of.ops.iter().filter(|o| o.o == "Else").count();
+        for (k, o) in of.ops.iter().enumerate() {
+            let marked = o.o == "I32Const" && o.imm == format!("value={}", INSERT_MARK);
+            let ins = marked || (open_marks > 0 && o.o == "Drop") || added_else.contains(&k);
+            if marked {
+                open_marks += 1;
+            } else if ins && o.o == "Drop" {
+                open_marks -= 1;
+            }
+            outops.push(json!([o.at, o.o, ins]));
+        }
+        // the pairs whose input offset lies in this function, each with the (1-based) positions of the operators that
+        // start at the two offsets (0 = no operator starts there); looking an offset up is all that happens here
+        let lo = f.ops.first().map(|o| o.at).unwrap_or(0);
+        let hi = f.ops.last().map(|o| o.at).unwrap_or(0);
+        let in_pos: std::collections::HashMap<u32, usize> = f.ops.iter().enumerate().map(|(k, o)| (o.at, k + 1)).collect();
+        let out_pos: std::collections::HashMap<u32, usize> = of.ops.iter().enumerate().map(|(k, o)| (o.at, k + 1)).collect();
+        let mut fpairs = vec![];
+        for (loc, off) in em.xform.instruction_map.iter().filter(|(loc, _)| *loc >= lo && *loc <= hi) {
+            attributed += 1;
+            fpairs.push(json!([in_pos.get(loc).copied().unwrap_or(0), out_pos.get(off).copied().unwrap_or(0), loc, off]));
+        }
+        funcs.push(json!({"fi": f.idx, "fo": fo, "inops": f.ops.iter().map(|o| json!([o.at, o.o])).collect::<Vec<_>>(), "outops": outops,
+                          "else_added": out_else.saturating_sub(in_else), "pairs": fpairs}));
+    }
+    let stray = em.xform.instruction_map.len() - attributed;
+    // function ranges as (output function index, start, end), via the emit-time map
+    let fo_of = |fid: i32| em.emit.func.iter().find(|(i, _)| *i == fid).map(|(_, x)| *x).unwrap_or(-1);
+    let mut ranges: Vec<(i32, u32, u32)> = em.xform.function_ranges.iter().map(|(fid, a, b)| (fo_of(*fid), *a, *b)).collect();
+    ranges.sort();
+    let mut entries: Vec<(i32, u32, u32)> = outm.funcs.iter().filter(|f| !f.imported).map(|f| (f.idx as i32, f.entry_at, f.end_at)).collect();
+    entries.sort();
+    json!({"id": id, "source": inp.source, "outcome": "ok", "captured": em.xform.captured, "variant": variant, "inserted": inserted,
+           "code_section_start": em.xform.code_section_start, "out_code_at": outm.code_at, "nfuncs_out": entries.len(),
+           "ranges": ranges, "out_entries": entries, "npairs": em.xform.instruction_map.len(), "stray_pairs": stray, "funcs": funcs})
 }
